@@ -4,8 +4,9 @@ from pyvc.contracts import contract
 contract("uxarray.io._mpas._replace_padding", props=["C01"],
          sizes=["n", "W"],
          params={"verticesOnCell": "arr(int, n, W, owner='fresh')", "nEdgesOnCell": "arr(int, n)"},
-         modifies=["verticesOnCell"],   # works in place (callers pass a private copy)
-         returns="arr(int, n, W)",
+         modifies=["verticesOnCell"],   # works in place: callers must pass a private copy, never the source dataset's array
+         requires=["owner_is(verticesOnCell, 'fresh')"],
+         returns="arr(int, n, W)", result_ghost={"owner": "fresh"},   # the (private) argument itself is returned
          ensures=["forall(0, n, 0, W, lambda f, j: result[f, j] == ite(j < nEdgesOnCell[f], old(verticesOnCell)[f, j], FILL))",
                   "shape(result) == (n, W)"],
          raises=[("Exception", "False", "only_if")])
@@ -14,7 +15,8 @@ contract("uxarray.io._mpas._replace_zeros", props=["C01"],
          sizes=["n", "W"],
          params={"grid_var": "arr(int, n, W, owner='fresh')"},
          modifies=["grid_var"],
-         returns="arr(int, n, W)",
+         requires=["owner_is(grid_var, 'fresh')"],
+         returns="arr(int, n, W)", result_ghost={"owner": "fresh"},
          ensures=["forall(0, n, 0, W, lambda f, j: result[f, j] == ite(old(grid_var)[f, j] == 0, FILL, old(grid_var)[f, j]))"],
          raises=[("Exception", "False", "only_if")])
 
@@ -22,7 +24,8 @@ contract("uxarray.io._mpas._to_zero_index", props=["C01"],
          sizes=["n", "W"],
          params={"grid_var": "arr(int, n, W, owner='fresh')"},
          modifies=["grid_var"],
-         returns="arr(int, n, W)",
+         requires=["owner_is(grid_var, 'fresh')"],
+         returns="arr(int, n, W)", result_ghost={"owner": "fresh"},
          ensures=["forall(0, n, 0, W, lambda f, j: result[f, j] == ite(old(grid_var)[f, j] == FILL, FILL, old(grid_var)[f, j] - 1))"],
          raises=[("Exception", "False", "only_if")])
 
@@ -58,3 +61,10 @@ def _tbl(fn, src, dst, padded, mesh_type=None, n="n_row", extra_params=None):
 _tbl("_parse_face_faces", "cellsOnCell", "face_face_connectivity", padded=True)
 _tbl("_parse_node_faces", "cellsOnVertex", "node_face_connectivity", padded=False, mesh_type="primal")
 _tbl("_parse_node_faces", "verticesOnCell", "node_face_connectivity", padded=True, mesh_type="dual")
+
+_tbl("_parse_face_nodes", "verticesOnCell", "face_node_connectivity", padded=True, mesh_type="primal")
+_tbl("_parse_face_nodes", "cellsOnVertex", "face_node_connectivity", padded=False, mesh_type="dual")
+_tbl("_parse_face_edges", "edgesOnCell", "face_edge_connectivity", padded=True, mesh_type="primal")
+_tbl("_parse_face_edges", "edgesOnVertex", "face_edge_connectivity", padded=False, mesh_type="dual")
+_tbl("_parse_edge_faces", "cellsOnEdge", "edge_face_connectivity", padded=False, mesh_type="primal")
+_tbl("_parse_edge_faces", "verticesOnEdge", "edge_face_connectivity", padded=False, mesh_type="dual")
